@@ -232,7 +232,12 @@ func TestVerifC15(t *testing.T) {
 		"vendor/licenses/Synthetic-Path.txt": "Use of the path finder in any form is allowed as long as the path that was found is credited to its finder",
 		"Synthetic-Twin.txt":                 "REDISTRIBUTION OF THE FROBNICATOR\n   in source and binary forms\n   IS PERMITTED PROVIDED THAT THIS NOTICE IS RETAINED IN FULL",
 	}
+	faultName := "" // the read of this file fails (once)
 	licenseclassifier.ReadLicenseFile = func(name string) ([]byte, error) {
+		if name != "" && name == faultName {
+			faultName = ""
+			return nil, fmt.Errorf("verif: transient I/O error reading %s", name)
+		}
 		if s, ok := synth[name]; ok {
 			return []byte(s), nil
 		}
@@ -304,6 +309,31 @@ func TestVerifC15(t *testing.T) {
 			continue
 		}
 		files = pristine
+		// a read that fails: either ArchiveLicenses says so, or the archive it reports as written holds every listed license
+		for k := 0; k < 2; k++ {
+			victim := files[rng.Intn(len(files))]
+			for !strings.HasSuffix(victim, ".txt") {
+				victim = files[rng.Intn(len(files))]
+			}
+			faultName = victim
+			var buf bytes.Buffer
+			err := ArchiveLicenses(append([]string(nil), files...), &buf)
+			faultName = ""
+			if err != nil {
+				continue
+			}
+			ok, what := false, "ArchiveLicenses reported success although reading "+victim+" failed; the archive does not load"
+			if l2, e2 := licenseclassifier.New(licenseclassifier.DefaultConfidenceThreshold, licenseclassifier.ArchiveBytes(buf.Bytes())); e2 == nil {
+				what = "ArchiveLicenses reported success although reading " + victim + " failed; the archive lacks that license"
+				keys, _, _ := licenseclassifier.VerifInner(l2).VerifKeys()
+				for _, key := range keys {
+					ok = ok || key == strings.TrimSuffix(filepath.Base(victim), ".txt")
+				}
+			}
+			if !ok {
+				rec.out.Emit(map[string]interface{}{"ev": "keys", "round": round, "loaded": []string{}, "direct": []string{}, "want": []string{victim}, "values_equal": false, "ok": false, "what": what})
+			}
+		}
 		direct := lcDirect(files)
 		lk := rec.keys(fmt.Sprintf("loaded%d", round), loaded)
 		dk := rec.keys(fmt.Sprintf("direct%d", round), direct)
@@ -476,6 +506,27 @@ func TestVerifC16(t *testing.T) {
 		}
 	}
 	l.Threshold = thr0
+	// the exported list of normalisers is the program's: editing it after a classifier was built (here: strings.ToLower is
+	// removed with the append(s[:i], s[i+1:]...) idiom, which shifts the elements of the array in place, to prepare a
+	// case-preserving chain for another classifier) leaves the classifier built before as it was
+	{
+		saved := append([]stringclassifier.NormalizeFunc(nil), licenseclassifier.Normalizers...)
+		arr := licenseclassifier.Normalizers
+		licenseclassifier.Normalizers = append(arr[:5], arr[6:]...)
+		type res struct {
+			f string
+			m *stringclassifier.Match
+		}
+		var got []res
+		for _, f := range []string{"MIT.txt", "ISC.txt", "BSD-2-Clause.txt"} {
+			got = append(got, res{f, l.NearestMatch(lcRead(f))}, res{f, l.NearestMatch(strings.ToUpper(lcRead(f)))})
+		}
+		copy(arr, saved)
+		licenseclassifier.Normalizers = arr[:len(saved)]
+		for i, g := range got {
+			rec.nmE("lic", l, lcRead(g.f), g.m, strings.TrimSuffix(g.f, ".txt"), false, "", fmt.Sprintf("%s/after-editing-Normalizers/%d", g.f, i), "")
+		}
+	}
 	// confidences around the threshold: a run of foreign characters spliced into the middle of a license, one
 	// character longer each time, walks the confidence down through the threshold in steps of about 1/len
 	for _, f := range []string{"MIT.txt", "ISC.txt", "BSD-3-Clause.txt"} {
